@@ -210,7 +210,8 @@ def gen_case(rng, ndim, mat, nsteps=None, uniform=False, big=False, tiny=False, 
         T = np.array([np.full((nr, nt, nz), lv) for lv in lvl])
     if zero_return:
         # temperatures measured from a zero reference: 0 -> T(r,theta,z) -> exactly 0 again (-> a second excursion)
-        T = np.array([(0.0 if k % 2 == 0 else 1.0) * span * (0.2 + f) for k in range(n + 1)])
+        # ... and below the reference: temperatures on a relative scale may be negative
+        T = np.array([[0.0, 1.0, 0.0, -0.5][k % 4] * span * (0.2 + f) for k in range(n + 1)])
     if tiny:
         # a slow ramp stored with very fine time stepping: every node changes by 0.2e-5 .. 0.8e-5 of its
         # temperature per stored step (a few mK) -- small changes are changes
